@@ -42,12 +42,14 @@ def modelStep (d : DState) (op : List String) (_obs : List (List String)) : DSta
     match l.toNat? with
     | some l =>
       -- the malloc family goes through cpputest_malloc_location (countdown, malloc_count)
-      let c' := if fam == "m" then mallocState d.c else d.c
-      if fam == "m" && mallocNull d.c then ({ d with c := c' }, ["ret null"])
+      let viaMalloc := fam == "m" || fam == "M"
+      let throws := ["n", "a", "p", "q", "W"].contains fam
+      let c' := if viaMalloc then mallocState d.c else d.c
+      if viaMalloc && mallocNull d.c then ({ d with c := c' }, ["ret null"])
       else
         let fired := (allocFired d.fa f l).map (·.id)
         let fails := allocFails d.fa f l
-        let ret := if fails then (if fam == "n" || fam == "a" then "ret throw" else "ret null") else "ret ok"
+        let ret := if fails then (if throws then "ret throw" else "ret null") else "ret ok"
         ({ d with fa := allocState d.fa f l, c := c' },
          [ret] ++ (if fired.isEmpty then [] else [idsLine "fired" fired]))
     | none => (d, ["bad-op"])
@@ -61,6 +63,17 @@ def modelStep (d : DState) (op : List String) (_obs : List (List String)) : DSta
   | ["oom"] => ({ d with c := setOutOfMemory d.c }, [])
   | ["notoom"] => ({ d with c := setNotOutOfMemory d.c }, [])
   | ["creset"] => ({ d with c := { d.c with count := 0 } }, ["count 0"])
+  | ["crealloc", what, _] =>
+    let r := match reallocResult d.c (what == "old") with
+      | .ok => "ret ok"
+      | .mismatch => "failure mismatch"
+      | .crash => "crash"
+    ({ d with c := cstep d.c (.realloc (what == "old")) }, [r, s!"count {d.c.count}"])
+  | ["cfree", _] =>
+    let r := match freeResult d.c with
+      | .ok => "ret ok"
+      | _ => "failure mismatch"
+    ({ d with c := cstep d.c .free }, [r, s!"count {d.c.count}"])
   | ["cmalloc", _] =>
     let c' := mallocState d.c
     ({ d with c := c' }, [if mallocNull d.c then "ret null" else "ret ok", s!"count {c'.count}"])
@@ -134,6 +147,11 @@ def Shadow.allocating (sh : Shadow) : Shadow × Bool :=
     | none => sh
   ({ sh1 with cnt := sh1.cnt + 1 }, sh1.oom)
 
+/-- `malloc_count` = allocating calls since the last reset, whatever their result -/
+def checkCount (sh : Shadow) (o : Proto.Op) : Except String Unit := do
+  if obsWith "count" o.obs != some [toString sh.cnt] then
+    throw s!"malloc_count is {(obsWith "count" o.obs).getD []}, the number of allocating calls since the last reset is {sh.cnt}"
+
 def specStep (sh : Shadow) (o : Proto.Op) : Except String Shadow := do
   let ret := obsWith "ret" o.obs
   match o.op with
@@ -155,14 +173,14 @@ def specStep (sh : Shadow) (o : Proto.Op) : Except String Shadow := do
     let baseId := countDesig sh.hist - countDesig e
     let wantIds := sortNat (firingIds f l (allocs e) baseId e)
     let gotIds := sortNat (parseIds ((obsWith "fired" o.obs).getD []))
-    let sh' := { sh with hist := sh.hist ++ [.alloc f l], cnt := if fam == "m" then sh.cnt + 1 else sh.cnt }
+    let sh' := { sh with hist := sh.hist ++ [.alloc f l], cnt := if fam == "m" || fam == "M" then sh.cnt + 1 else sh.cnt }
     match ret with
     | some ["ok"] =>
       if want then throw s!"allocation at {f}:{l} (global index {allocs e + 1}) is designated but succeeded"
       if !gotIds.isEmpty then throw s!"a designation was consumed by an allocation that succeeded"
       return sh'
     | some [r] =>
-      if r != (if fam == "n" || fam == "a" then "throw" else "null") then throw s!"unexpected result {r} for family {fam}"
+      if r != (if ["n", "a", "p", "q", "W"].contains fam then "throw" else "null") then throw s!"unexpected result {r} for family {fam}"
       if !want then throw s!"allocation at {f}:{l} (global index {allocs e + 1}) is not designated but failed"
       if gotIds != wantIds then throw s!"failing allocation consumed designations {gotIds}, the designated ones are {wantIds}"
       return sh'
@@ -199,13 +217,20 @@ def specStep (sh : Shadow) (o : Proto.Op) : Except String Shadow := do
   | ["oom"] => return { sh with oom := true }
   | ["notoom"] => return { sh with oom := false, cd := none }
   | ["creset"] => return { sh with cnt := 0 }
+  | ["crealloc", _, _] =>
+    -- realloc is outside the property (and outside the countdown): only malloc_count is judged
+    checkCount sh o
+    return sh
+  | ["cfree", _] =>
+    checkCount sh o
+    return sh
   | ["cmalloc", _] =>
     let (sh', fail) := sh.allocating
     match ret with
     | some ["null"] => if !fail then throw "malloc failed outside the simulated out-of-memory"
     | some ["ok"] => if fail then throw "malloc succeeded under simulated out-of-memory"
     | _ => throw "malloc without result"
-    if obsWith "count" o.obs != some [toString sh'.cnt] then throw "malloc_count is not the number of allocating calls"
+    checkCount sh' o
     return sh'
   | ["cstrdup", hx] =>
     let some bs := Proto.unhex? hx | throw "bad cstrdup"
@@ -216,6 +241,7 @@ def specStep (sh : Shadow) (o : Proto.Op) : Except String Shadow := do
       if fail then throw "strdup returned a buffer although its allocation fails"
       if Proto.unhex? r != some (bs ++ [0]) then throw "strdup: wrong content"
     | _ => throw "strdup without result"
+    checkCount sh' o
     return sh'
   | ["cstrndup", hx, n] =>
     let some bs := Proto.unhex? hx | throw "bad cstrndup"
@@ -227,12 +253,14 @@ def specStep (sh : Shadow) (o : Proto.Op) : Except String Shadow := do
       if fail then throw "strndup returned a buffer although its allocation fails"
       if Proto.unhex? r != some (bs.take n ++ [0]) then throw "strndup: wrong content"
     | _ => throw "strndup without result"
+    checkCount sh' o
     return sh'
   | ["ccalloc", a, b] =>
     let some a := a.toNat? | throw "bad ccalloc"
     let some b := b.toNat? | throw "bad ccalloc"
     if a * b ≥ 2 ^ 64 then
       if ret != some ["null"] then throw "calloc with an overflowing product did not return NULL"
+      checkCount sh o
       return sh
     let (sh', fail) := sh.allocating
     match ret with
@@ -241,6 +269,7 @@ def specStep (sh : Shadow) (o : Proto.Op) : Except String Shadow := do
       if fail then throw "calloc returned a buffer although its allocation fails"
       if z.toNat? != some (a * b) then throw "calloc: wrong size"
     | _ => throw "calloc: result not NULL and not zero filled"
+    checkCount sh' o
     return sh'
   | _ => throw "bad-op"
 
